@@ -848,7 +848,14 @@ def gen_deep_locus(src, with_annotation=True, max_reads=2500, chrom="chr1", extr
     special = []
     for _ in range(src.int(1, 4)):
         k += 1
-        kind = src.choice(["last_bin", "last_bin", "border", "first_bin", "valley_bin", "valley_bin"])
+        kind = src.choice(["last_bin", "last_bin", "border", "first_bin", "valley_bin", "valley_bin", "first_base"])
+        if kind == "first_base":
+            # an alignment of one base (the rest of the read is clipped) at the very first base of the cluster
+            k_name = "s%d" % k
+            special.append(k_name)
+            reads.append(R.make_read(k_name, chrom, [[seg_starts[0] + 1, seg_starts[0] + 1]], mapq=60, polya=30,
+                                     polyt=30))
+            continue
         if kind == "valley_bin":
             # wholly inside the first bin at which the cluster may be cut (128 bins after its first covered bin): the
             # bin is a valley only while its depth (bridges + this read) stays within 1 % of the pile-up
